@@ -168,7 +168,10 @@ def scripts(prop, g, variants):
     if prop == "C03":
         return [[("simulate", a0), ("update", None, a1), ("update", _subset(g, _values(g, 1), 2, 0), a1, "conv"),
                  ("update", _subset(g, _values(g, 2), 3, 1), a0), ("update", None, a0), ("update", _subset(g, _values(g, 0), 2, 1), a0, "conv")],
-                [("generate", full0, a1), ("update", _subset(g, _values(g, 1), 2, 1), a0), ("update", full1, a1)]]
+                [("generate", full0, a1), ("update", _subset(g, _values(g, 1), 2, 1), a0), ("update", full1, a1)],
+                # fresh from simulate (hidden Cond branches still hold their OWN draws), then at once a partial constraint + flipped arguments
+                [("simulate", a0), ("update", _subset(g, _values(g, 2), 2, 1), a1), ("update", _subset(g, _values(g, 1), 3, 0), a0)],
+                [("simulate", a1), ("update", _subset(g, _values(g, 0), 3, 2), a0)]]
     sp = _first_path_selection(g)
     deep = sp[0]
     top = ("str", deep[0])
@@ -184,7 +187,7 @@ def scripts(prop, g, variants):
         ops.append(("regenerate", sels[0], a1))
         return [ops]
     if prop == "C05":
-        ops = [("generate", _subset(g, _values(g, 0), 2, 0), a0)]
+        ops = [("simulate", a0), ("update", _subset(g, _values(g, 1), 2, 1), a1), ("generate", _subset(g, _values(g, 0), 2, 0), a0)]
         ops += [("regenerate", sels[0], a0), ("update", None, a1), ("update", _subset(g, _values(g, 2), 2, 0), a1, "conv"), ("regenerate", sels[1], a1),
                 ("update", _subset(g, _values(g, 1), 2, 1), a1), ("regenerate", sels[2] if len(sels) > 2 else ("all",), a0),
                 ("update", None, a0), ("update", None, a1)]
